@@ -356,6 +356,11 @@ func (o *Obligation) Query() string {
 	v := o.Unit
 	var b strings.Builder
 	b.WriteString(v.smt.Prelude())
+	for _, a := range v.smt.axioms {
+		b.WriteString("(assert ")
+		b.WriteString(a)
+		b.WriteString(")\n")
+	}
 	for i, a := range v.smt.asserts[:o.NAssert] {
 		if g := v.smt.groups[i]; g != "" && g != o.Group {
 			continue
@@ -377,4 +382,20 @@ func (o *Obligation) Query() string {
 	}
 	b.WriteString("(check-sat)\n")
 	return b.String()
+}
+
+// importAlias resolves an import alias used in any file of the package.
+func (e *Engine) importAlias(pkgPath, alias string) (string, bool) {
+	p := e.pkgs[pkgPath]
+	if p == nil {
+		return "", false
+	}
+	for _, f := range p.Syntax {
+		for _, im := range f.Imports {
+			if im.Name != nil && im.Name.Name == alias {
+				return strings.Trim(im.Path.Value, "\""), true
+			}
+		}
+	}
+	return "", false
 }
